@@ -8,16 +8,14 @@ theorem namedAnchor_fields {q : Q} {s : SrcAnchor} {a : NA} (h : namedAnchor q s
   unfold namedAnchor at h
   split at h
   · simp at h
-  · split at h
-    · simp at h
-    · cases hp : parseAnchor s.name.toList with
-      | error e => rw [hp] at h; simp at h
-      | ok p =>
-        rw [hp] at h; simp only at h
-        split at h
-        · simp at h
-        · simp only [Except.ok.injEq, Option.some.injEq] at h; subst h
-          exact ⟨p, rfl, rfl, rfl, rfl⟩
+  · cases hp : parseAnchor s.name.toList with
+    | error e => rw [hp] at h; simp at h
+    | ok p =>
+      rw [hp] at h; simp only at h
+      split at h
+      · simp at h
+      · simp only [Except.ok.injEq, Option.some.injEq] at h; subst h
+        exact ⟨p, rfl, rfl, rfl, rfl⟩
 
 theorem namedAnchor_same_name {q : Q} {s s' : SrcAnchor} {a a' : NA} (h : namedAnchor q s = .ok (some a))
     (h' : namedAnchor q s' = .ok (some a')) (hn : s.name = s'.name) :
@@ -53,26 +51,26 @@ theorem name_ne_empty_of_toList {s : String} {c : Char} {r : List Char} (h : s.t
   intro e; subst e; simp at h
 
 /-- a source anchor named `_k` (k plain) is a mark NamedAnchor of key k -/
-theorem src_mark {q : Q} {s : SrcAnchor} {k : List Char} (hid : s.idNoLib = false) (hn : s.name.toList = '_' :: k)
+theorem src_mark {q : Q} {s : SrcAnchor} {k : List Char} (hn : s.name.toList = '_' :: k)
     (hk : plainKey k = true) :
     ∃ a, namedAnchor q s = .ok (some a) ∧ a.name = s.name ∧ a.isMark = true ∧ a.key = String.ofList k ∧ a.number = none := by
   have hp := parse_mark hk
   rw [← hn] at hp
   have hi : keyIgnorable k = false := (headAlpha_head ((plainKey_iff k).mp hk).1).2.2.2
-  exact ⟨_, namedAnchor_of_parse (name_ne_empty_of_toList hn) hid hp rfl hi, rfl, rfl, rfl, rfl⟩
+  exact ⟨_, namedAnchor_of_parse (name_ne_empty_of_toList hn) hp rfl hi, rfl, rfl, rfl, rfl⟩
 
 /-- a source anchor named `k` (k plain) is a base NamedAnchor of key k -/
-theorem src_base {q : Q} {s : SrcAnchor} {k : List Char} (hid : s.idNoLib = false) (hn : s.name.toList = k)
+theorem src_base {q : Q} {s : SrcAnchor} {k : List Char} (hn : s.name.toList = k)
     (hk : plainKey k = true) :
     ∃ a, namedAnchor q s = .ok (some a) ∧ a.name = s.name ∧ a.isMark = false ∧ a.key = String.ofList k ∧ a.number = none := by
   subst hn
   have hp := parse_base hk
   obtain ⟨c, r, e, hc⟩ := ((plainKey_iff _).mp hk).1
   have hi : keyIgnorable s.name.toList = false := (headAlpha_head ((plainKey_iff _).mp hk).1).2.2.2
-  exact ⟨_, namedAnchor_of_parse (name_ne_empty_of_toList e) hid hp rfl hi, rfl, rfl, rfl, rfl⟩
+  exact ⟨_, namedAnchor_of_parse (name_ne_empty_of_toList e) hp rfl hi, rfl, rfl, rfl, rfl⟩
 
 /-- a source anchor named `k_N` (k starting with a letter, N ≥ 1) is a ligature NamedAnchor of key k, number N -/
-theorem src_lig {q : Q} {s : SrcAnchor} {k : List Char} {n : Nat} (hid : s.idNoLib = false)
+theorem src_lig {q : Q} {s : SrcAnchor} {k : List Char} {n : Nat}
     (hl : isLigName k n s.name.toList = true)
     (hk : HeadAlpha k) (hn : 1 ≤ n) :
     ∃ a, namedAnchor q s = .ok (some a) ∧ a.name = s.name ∧ a.isMark = false ∧ a.key = String.ofList k ∧ a.number = some n := by
@@ -84,7 +82,7 @@ theorem src_lig {q : Q} {s : SrcAnchor} {k : List Char} {n : Nat} (hid : s.idNoL
   have hi : keyIgnorable k = false := (headAlpha_head ⟨c, r, e', hc⟩).2.2.2
   have hne' : s.name ≠ "" := by
     apply name_ne_empty_of_toList (c := c) (r := r ++ '_' :: ds); rw [e, e']; rfl
-  exact ⟨_, namedAnchor_of_parse hne' hid hp rfl hi, rfl, rfl, rfl, rfl⟩
+  exact ⟨_, namedAnchor_of_parse hne' hp rfl hi, rfl, rfl, rfl, rfl⟩
 
 /-- under `anchorLists = ok`, a name `k_0…` cannot occur on an included glyph -/
 theorem lig_number_pos {i : Input} {al : AList} (cv : ALcov i al) {sg : SrcGlyph} (hsg : sg ∈ i.glyphs)
@@ -102,8 +100,6 @@ theorem lig_number_pos {i : Input} {al : AList} (cv : ALcov i al) {sg : SrcGlyph
     rcases hk with ⟨c, r, e', _⟩ | e'
     · apply name_ne_empty_of_toList (c := c) (r := r ++ '_' :: ds); rw [e, e']; rfl
     · apply name_ne_empty_of_toList (c := '_') (r := ds); rw [e, e']; rfl
-  unfold namedAnchor at ho
-  rw [if_neg hne'] at ho
-  split at ho <;> simp [hp] at ho
+  simp [namedAnchor, hne', hp] at ho
 
 end Ufo2ft.C06
